@@ -461,6 +461,9 @@ func fsProgMain(args []string) {
 			progs = append(progs, strings.TrimPrefix(c, "fsprog "))
 		}
 	}
+	if o.Replay == "" {
+		progs = append(progs, shapeMatrix()...)
+	}
 	for i := 0; i < n; i++ {
 		// initial tree
 		type ent struct {
@@ -737,4 +740,59 @@ func fsProgMain(args []string) {
 		}
 	}
 	rep.Write(o.Report, drv)
+}
+
+
+// shapeMatrix: directed one-call programs — every kind of source (missing, empty / non-empty file, empty
+// directory, directory with a file, deeper directory with an empty sub-directory) against every kind of
+// destination (missing with and without its parent, file, empty directory, non-empty directory, directory
+// that already holds an entry with the source's name — directory or file —, the source itself, its parent,
+// a place inside it), for cp (with and without trailing separator) and mv. They run before the random programs
+// in every tier; the final trees and every answer are compared like those of any other program.
+func shapeMatrix() []string {
+	type shape struct {
+		name string
+		ents func(at string) []string
+	}
+	srcs := []shape{
+		{"missing", func(string) []string { return nil }},
+		{"empty-file", func(at string) []string { return []string{at + "=f0"} }},
+		{"file", func(at string) []string { return []string{at + "=f3"} }},
+		{"empty-dir", func(at string) []string { return []string{at + "=d"} }},
+		{"dir-with-file", func(at string) []string { return []string{at + "=d", at + "/b=f2"} }},
+		{"deep-dir", func(at string) []string {
+			return []string{at + "=d", at + "/b=d", at + "/b/c=f1", at + "/d=d"}
+		}},
+	}
+	var out []string
+	add := func(ents []string, call string) {
+		out = append(out, strings.Join(ents, " ")+" -- "+call+" ; lsr . ; isdir a ; isdir c")
+	}
+	for _, sh := range srcs {
+		for _, op := range []string{"cp", "cp/", "mv"} {
+			call := func(src, dst string) string {
+				if op == "cp/" && dst != "." {
+					return "cp " + src + " " + dst + "/"
+				}
+				return op + " " + src + " " + dst
+			}
+			src := sh.ents("a")
+			join := func(more ...string) []string { return append(append([]string{}, src...), more...) }
+			add(join(), call("a", "c"))                                    // missing, parent (the root) exists
+			add(join(), call("a", "c/d"))                                  // missing, parent missing
+			add(join("c=f4"), call("a", "c"))                              // existing file
+			add(join("c=d"), call("a", "c"))                               // empty directory
+			add(join("c=d", "c/d=f5"), call("a", "c"))                     // non-empty directory
+			add(join("c=d", "c/a=d", "c/a/b=f5"), call("a", "c"))          // holds a directory with the source's name
+			add(join("c=d", "c/a=f1"), call("a", "c"))                     // holds a file with the source's name
+			add(join("c=d", "c/b=d", "c/b/c=f5", "c/d=f2"), call("a", "c")) // merge: same names one level down
+			add(join(), call("a", "a"))                                    // itself
+			add(join(), call("a", "a/d"))                                  // inside itself
+			add(join(), call("a", "a/b"))
+			// the destination is the parent of the source
+			add(append([]string{"c=d"}, sh.ents("c/a")...), call("c/a", "c"))
+			add(append([]string{"c=d", "c/d=f1"}, sh.ents("c/a")...), call("c/a", "."))
+		}
+	}
+	return out
 }
